@@ -243,7 +243,7 @@ theorem drExpinv_eq_S1inv_neg (w : Vec ℝ 3) : SO3.dr_expinv w = SO3.calc_S1inv
     simp only [mmul, vsum, Mat.of_get, hh]
     ring
   ext i j
-  simp only [SO3.dr_expinv, SO3.calc_S1inv, SO3.ad, madd, memoM_eq, Mat.of_get, sqNorm_vneg3, hmm, hh]
+  simp only [SO3.dr_expinv, SO3.calc_S1inv, SO3.ad, madd, memoM_eq, Lin.mmul_msmul_get, Mat.of_get, sqNorm_vneg3, hmm, hh]
   ring
 
 theorem galDrExpinv_blocks (a : Vec ℝ 10) :
